@@ -154,11 +154,20 @@ Proof. rewrite !forallb_forall. auto. Qed.
 Lemma strip_prefix_app p s : strip_prefix p (p ++ s) = Some s.
 Proof. induction p as [|x p IH]; simpl; auto. now rewrite N.eqb_refl. Qed.
 
+Lemma lexists_existsb {A} (f : A -> bool) l : lexists f l = existsb f l.
+Proof. induction l as [|x r IH]; simpl; auto. destruct (f x); auto. Qed.
+
+Lemma first_occ_In seen ps p : In p (first_occ seen ps) -> In p ps.
+Proof.
+  revert seen. induction ps as [|q r IH]; intros seen; simpl; auto.
+  destruct (memb str_eqb (fst q) seen); simpl; [eauto|]. intros [H|H]; eauto.
+Qed.
+
 Lemma concat_match_join sep l : concat_match (S (length l)) sep l (join sep l) = true.
 Proof.
   induction l as [|x r IH]; [reflexivity|].
   change (concat_match (S (length (x :: r))) sep (x :: r) (join sep (x :: r)))
-    with (existsb (fun p =>
+    with (lexists (fun p =>
             match strip_prefix (fst p) (join sep (x :: r)) with
             | None => false
             | Some s' =>
@@ -169,12 +178,14 @@ Proof.
                           | Some s'' => concat_match (length (x :: r)) sep rest s''
                           end
                 end
-            end) (picks (x :: r))).
-  simpl picks. simpl existsb. apply orb_true_iff. left.
+            end) (first_occ [] (picks (x :: r)))).
   destruct r as [|y r'].
   - simpl. replace x with (x ++ []) at 2 by apply app_nil_r. rewrite strip_prefix_app. reflexivity.
-  - change (join sep (x :: y :: r')) with (x ++ sep ++ join sep (y :: r')).
-    rewrite strip_prefix_app. rewrite strip_prefix_app. exact IH.
+  - cbn [picks first_occ lexists memb fst snd].
+    change (join sep (x :: y :: r')) with (x ++ sep ++ join sep (y :: r')).
+    rewrite strip_prefix_app. rewrite strip_prefix_app.
+    change (length (x :: y :: r')) with (S (length (y :: r'))).
+    rewrite IH. reflexivity.
 Qed.
 
 Lemma oterm_eqb_refl o : oterm_eqb o o = true.
